@@ -177,6 +177,14 @@ func (lcp *LCPStateMachine) setState(newState LCPState) {
 	oldState := lcp.state
 	lcp.state = newState
 
+	// The restart timer runs only while a Configure- or Terminate-Request is
+	// outstanding (RFC 1661 section 4.6): it is stopped on entering a state
+	// without one, not by every packet that happens to arrive.
+	switch newState {
+	case LCPStateInitial, LCPStateStarting, LCPStateClosed, LCPStateStopped, LCPStateOpened:
+		lcp.stopTimer()
+	}
+
 	lcp.logger.Debug("LCP state change",
 		zap.String("from", oldState.String()),
 		zap.String("to", newState.String()),
@@ -525,8 +533,6 @@ func (lcp *LCPStateMachine) receiveConfigureAck(pkt *LCPPacket) error {
 		return nil
 	}
 
-	lcp.stopTimer()
-
 	switch lcp.state {
 	case LCPStateClosed, LCPStateStopped:
 		lcp.sendTerminateAck(pkt.Identifier)
@@ -554,8 +560,6 @@ func (lcp *LCPStateMachine) receiveConfigureNak(pkt *LCPPacket) error {
 	if pkt.Identifier != lcp.lastIdentifier {
 		return nil
 	}
-
-	lcp.stopTimer()
 
 	// Process NAK options and update our config
 	opts, err := ParseLCPOptions(pkt.Data)
@@ -623,8 +627,6 @@ func (lcp *LCPStateMachine) receiveConfigureReject(pkt *LCPPacket) error {
 		return nil
 	}
 
-	lcp.stopTimer()
-
 	// Process rejected options and remove them from our config
 	opts, err := ParseLCPOptions(pkt.Data)
 	if err != nil {
@@ -663,8 +665,6 @@ func (lcp *LCPStateMachine) receiveConfigureReject(pkt *LCPPacket) error {
 
 // receiveTerminateRequest handles incoming Terminate-Request
 func (lcp *LCPStateMachine) receiveTerminateRequest(pkt *LCPPacket) error {
-	lcp.stopTimer()
-
 	switch lcp.state {
 	case LCPStateClosed, LCPStateStopped, LCPStateClosing, LCPStateStopping:
 		lcp.sendTerminateAck(pkt.Identifier)
@@ -683,8 +683,6 @@ func (lcp *LCPStateMachine) receiveTerminateRequest(pkt *LCPPacket) error {
 
 // receiveTerminateAck handles incoming Terminate-Ack
 func (lcp *LCPStateMachine) receiveTerminateAck(pkt *LCPPacket) error {
-	lcp.stopTimer()
-
 	switch lcp.state {
 	case LCPStateClosing:
 		// This-Layer-Finished
